@@ -146,7 +146,7 @@ def r3_inverse_pair(ctx):
     ret = [n for n in walk_shallow(fwd) if isinstance(n, ast.Return)][-1]
     c, p = monomial(ret.value, atom=lambda n: "EXP" if isinstance(n, ast.Call) and (call_name(n) or "").endswith(".exp") else U(n))
     ex = [n for n in ast.walk(ret.value) if isinstance(n, ast.Call) and (call_name(n) or "").endswith(".exp")]
-    ok = c == 1 and set(p) == {"A", "EXP"} and len(ex) == 1
+    ok = c == 1 and set(p) == {"A", "EXP"} and all(e == {"1": 1} for e in p.values()) and len(ex) == 1
     ctx.check(ok, ARR + ":arrhenius_equation", "k=A*exp(.)", "arrhenius_equation must return A * exp(...); found %s" % U(ret.value), node=ret)
     if not ex or "RT" not in env:
         raise AnalysisError("arrhenius_equation: exponent / RT not found")
